@@ -82,9 +82,9 @@ package main
 //@   assigns GoMaps, Arr:Val, Mem:OMap, decUseNumber
 //@   allocs Arr:Int, Arr:Slice, Mem:Str, Arr:Str
 //@   local c := mkCfg(redactedString, redactNumbers, redactBooleans, shouldEncrypt && encryptionKey != nil, mkbytes(elems(encryptionKey), off(encryptionKey), len(encryptionKey)), redactedFieldsRegexp, emailRegex, redactNamespaces)
-//@   snapshot_after UnmarshalOrdered#1 H0 := comp("Mem:OMap")
+//@   snapshot_after UnmarshalOrdered#1 H0:[Int]OMap := comp("Mem:OMap")
 //@   loop 1 invariant no-prefix-so-far {C15}: !anyPrefix(nsStrOf(H0[attr]), selems(eagerRedactionPaths), off(eagerRedactionPaths), _idx) && om(attr) == omAfterIPs
-//@   snapshot_after (*orderedmap.OrderedMap).Get#3 omAfterIPs := om(mapOf(result0))
+//@   snapshot_after (*orderedmap.OrderedMap).Get#3 omAfterIPs:OMap := om(mapOf(result0))
 //@   at_call redactCommand field-name-mode-iff-namespace-prefix {C15}: shouldEagerRedact == anyPrefix(nsStrOf(H0[attr]), selems(eagerRedactionPaths), off(eagerRedactionPaths), len(eagerRedactionPaths))
 //@   post_local E := H0[result0]
 //@   post_local hasAttr := omIdx(E, "attr") >= 0 && isMap(omVal(E, omIdx(E, "attr")))
@@ -103,10 +103,30 @@ package main
 
 //@ func MarshalOrdered
 //@   safety C07
+//@   props C03 C04
 //@   assigns nothing
-//@   allocs Arr:Int
+//@   allocs Arr:Int, bufText
 //@   requires map: m != nil
-//@   loop 1 invariant el-valid: el == nil || elMap(el) == m
+//@   local A := om(m)
+//@   loop 1 invariant el-valid: (el == nil || (elMap(el) == m && 0 <= elPos(el) && elPos(el) < omLen(A))) && i == ite(el == nil, omLen(A), elPos(el))
+//@   loop 1 invariant buffers-frame: unchangedBelow("g:bufText")
+//@   loop 1 invariant entries-so-far {C03,C04,C19}: MapAcc(A, i, bufText[&buf])
+//@   ensures error-or-bytes: (result1 != nil) == (result0 == nil) || result1 == nil
+//@   defines map-text {C03,C04,C19}: MapText(m, bstr(mkbytes(ielems(result0), off(result0), len(result0)))) := implies(result1 == nil, MapClosed(A, bstr(mkbytes(ielems(result0), off(result0), len(result0)))))
+//@   at_call encoding/json.Marshal keys-through-the-json-encoder {C03,C04,C19}: v == VStr(omKey(A, i))
+
+//@ func marshalValue
+//@   safety C07
+//@   props C03 C04
+//@   assigns bufText
+//@   allocs Arr:Int
+//@   requires buffer: buf != nil
+//@   local T0 := bufText[buf]
+//@   loop 1 invariant only-this-buffer: unchangedBelowExcept("g:bufText", buf)
+//@   loop 1 invariant elements-so-far {C03,C04,C19}: ArrAcc(velems(arrOf(value)), off(arrOf(value)), _idx, T0, bufText[buf])
+//@   ensures only-this-buffer: unchangedBelowExcept("g:bufText", buf)
+//@   defines rendered {C03,C04,C19}: Rendered(value, T0, bufText[buf]) := implies(result == nil, RenderedDef(value, velems(arrOf(value)), T0, bufText[buf]))
+//@   at_call encoding/json.Marshal only-scalars-reach-the-json-encoder {C03,C04}: !isMap(v) && !isArr(v)
 
 // ---------------------------------------------------------------------------------------------
 // reader.go
@@ -117,9 +137,9 @@ package main
 //@   assigns nothing
 
 //@ func processMongoLogStream
-//@   props C08
+//@   props C08 C06
 //@   safety C07
-//@   assigns GoMaps, wfailOn, scanErr, outN, stderrN, decUseNumber, Arr:Val, Mem:OMap
+//@   assigns GoMaps, wfailOn, scanErr, outN, stderrN, scannedN, decUseNumber, Arr:Val, Mem:OMap
 //@   allocs Arr:Str
 //@   requires: !wfailOn[outWriter] && !scanErr
 //@   loop 1 invariant io-ok {C08}: !wfailOn[outWriter] && !scanErr
@@ -129,11 +149,17 @@ package main
 //@   ensures only-this-writer: wfailOn == store(old(wfailOn), outWriter, wfailOn[outWriter])
 //@   ensures out-grows: outN >= old(outN)
 //@   ensures open-unchanged: openFail == old(openFail)
+//@   loop 1 invariant at-most-one-line-out-per-line-in {C06,C07}: outN - old(outN) <= scannedN - old(scannedN) && scannedN >= old(scannedN)
+//@   ensures at-most-one-line-out-per-line-in {C06,C07}: outN - old(outN) <= scannedN - old(scannedN)
+//@   at_call RedactMongoLog processes-the-scanned-line {C06}: jsonStr == line
+//@   at_call MarshalOrdered serialises-the-redacted-entry {C06}: m == redacted
+//@   at_call fmt.Fprintln writes-the-redacted-line-to-the-output {C06}: w == outWriter && len(a) == 1 && a[0] == VStr(bstr(mkbytes(elems(out), off(out), len(out))))
+//@   at_call addOneToBar#1 only-blank-lines-are-skipped {C06}: line == ""
 
 //@ func ProcessMongoLogFile
 //@   props C08
 //@   safety C07
-//@   assigns GoMaps, wfailOn, scanErr, openFail, outN, stderrN, envOps, decUseNumber, Arr:Val, Mem:OMap
+//@   assigns GoMaps, wfailOn, scanErr, openFail, outN, stderrN, scannedN, envOps, decUseNumber, Arr:Val, Mem:OMap
 //@   allocs Arr:Str
 //@   requires: !wfailOn[outWriter] && !scanErr && !openFail && fileReader != nil
 //@   requires key-in-use-is-the-persisted-one {C11}: implies(shouldEncrypt && encryptionKey != nil, havePersisted && persistedKey == mkbytes(elems(encryptionKey), off(encryptionKey), len(encryptionKey)))
@@ -145,7 +171,7 @@ package main
 //@ func ProcessMongoLogFileFromReader
 //@   props C08
 //@   safety C07
-//@   assigns GoMaps, wfailOn, scanErr, outN, stderrN, envOps, decUseNumber, Arr:Val, Mem:OMap
+//@   assigns GoMaps, wfailOn, scanErr, outN, stderrN, scannedN, envOps, decUseNumber, Arr:Val, Mem:OMap
 //@   allocs Arr:Str
 //@   requires: !wfailOn[outWriter] && !scanErr
 //@   requires key-in-use-is-the-persisted-one {C11}: implies(shouldEncrypt && encryptionKey != nil, havePersisted && persistedKey == mkbytes(elems(encryptionKey), off(encryptionKey), len(encryptionKey)))
